@@ -638,6 +638,8 @@ def rule_exported_locked(ctx, rep, pid):
 
 META["explanation"] += " " + 'Also (fifth reading): return case table of dequeue (NULL iff the emptiness test held, WOULDBLOCK iff a successor wait reported it in non-blocking mode, a node otherwise).'
 
+META["explanation"] += " " + 'Also (round 14): shared words are read with volatile / atomic loads in every API function; no pure / const attribute on the public prototypes.'
+
 RULES = [
     ("C10.proto", lambda c, r: __import__("sa.attrs", fromlist=["x"]).rule_nopure(c, r, "C10.proto", '^_*cds_(wfcq|wfq)_', "wfcqueue / wfqueue", 15)),   # compiler-visible contract of the public prototypes: pure / const would let an optimised caller poll once
     ("C10.nodeinit", rule_nodeinit),
